@@ -219,6 +219,18 @@ def run(rep, tier):
             for v, tb in m.items():
                 r = f.reachable_from([tb], avoid=[x for vv, x in m.items() if vv != v])
                 arms[v] = {e.name.rsplit("::", 1)[1] for e in f.calls() if e.block in r}
+    if not arms:
+        # the direction may be tested through the predicate methods instead of a match
+        from .c06_db import _bool_switch
+        for e in f.calls_named(r"ScanOrder::is_(descending|ascending)$"):
+            ft, tt = _bool_switch(f, e)
+            if ft is None or tt is None:
+                continue
+            d_t, a_t = (tt, ft) if e.name.endswith("is_descending") else (ft, tt)
+            arms["Descending"] = {x.name.rsplit("::", 1)[1] for x in f.calls() if x.block in f.reachable_from([d_t], avoid=[a_t])}
+            arms["Ascending"] = {x.name.rsplit("::", 1)[1] for x in f.calls() if x.block in f.reachable_from([a_t], avoid=[d_t])}
+    if not arms:
+        raise CheckerFault("ScanOrder::truncate: the direction test was not recognised (neither a match on self nor is_descending()/is_ascending())")
     ok = "truncate" in arms.get("Ascending", ()) and "drain" in arms.get("Descending", ()) and "truncate" not in arms.get("Descending", ()) and "drain" not in arms.get("Ascending", ())
     rep.ob("R03.3", "truncate-arms|ScanOrder::truncate", ok, "Ascending keeps the head (Vec::truncate), Descending keeps the tail (Vec::drain of the head)", f.file + ":%d" % f.line)
 
